@@ -19,6 +19,8 @@ func c17(p *P) {
 	r.Rule("C17.R3", "export: hashing writer, header fields, range first…requested latest, raw bytes", 8)
 	r.Rule("C17.R4", "import checkpoint writer agrees with the store's reader", 1)
 	r.Rule("C17.R5", "block framing symmetric", 3)
+	p.include(c04, map[string]string{"C04.R5": "C17.R6"}, map[string]string{"C17.R6": "delta application used by import rejects malformed deltas"})
+	p.include(c09, map[string]string{"C09.R5": "C17.R7", "C09.R6": "C17.R7b"}, map[string]string{"C17.R7": "checkpoint writer/reader agreement (imported store serves the same power tables)", "C17.R7b": "power-table derivation"})
 
 	writers := p.dsWriters()
 	imp := p.fn("C17.R1", "certstore.importSnapshotToDatastoreWithTestingPowerTableFrequency")
